@@ -5,7 +5,8 @@ R20.1: in every coroutine body of the crate, no `Yield` (suspension point) is re
 import ts, roles as R
 
 LEVEL = "other"
-EXPLANATION = ("Typestate analysis (lock / ring-reservation tokens with return-value correlation, interprocedural summaries computed "
+EXPLANATION = ("(R20.3) the wake decision taken when a suspended send_with_async completes does not rest on a queue length sampled before the suspension point "
+               "(necessary for 'when the suspended send finally completes, its event is delivered as well'). (R20.1) Typestate analysis (lock / ring-reservation tokens with return-value correlation, interprocedural summaries computed "
                "bottom-up over the resolved call graph incl. closures and trait dispatch by CHA) over the built MIR of every coroutine "
                "body: a Yield terminator reached in a state that holds a spin-lock or a ring reservation is a violation. This is a "
                "sufficient condition for C20's 'other operations complete in bounded steps': the only unbounded waits in the channel "
@@ -54,3 +55,56 @@ def check(ctx):
     if n_async_send < 12:
         raise __import__("facts").InfraError(f"R20.1: only {n_async_send} send_with_async/alloc_with_async coroutines found (floor 12)")
     ctx.floor("R20.1", 40)
+
+
+# ---------------------------------------------------------------------------------------------- R20.3 (added after seed C20-s1)
+def _r20_3(ctx):
+    """'When the suspended send finally completes, its event is delivered as well': the wake decision taken after the publication of a
+    send_with_async must not rest on a queue length sampled BEFORE the suspension point (while the setter was parked the consumers may have
+    drained the queue and parked) -- unless the queue lock is held across the whole suspension (nobody can consume meanwhile; that is R20.1's finding)."""
+    import importlib
+    import dag as D
+    from mir import Body
+    C04 = importlib.import_module("props.C04")
+    fx = ctx.fx
+    eng = ts.Engine(fx)
+    n = 0
+    for s in C04.wake_sites(fx):
+        if "send_with_async" not in s.key or not s.f.get("is_coroutine"): continue
+        body = s.body; dg = s.dg
+        at = []
+        for (op, l, r, pol) in s.conds:
+            if C04.sentinel_test(l, r): continue
+            C04.atoms(l, at); C04.atoms(r, at)
+        if not C04.is_listener_id(s.target): C04.atoms(s.target, at)
+        yields = [b for b in body.reachable if body.term(b)[0] == "Yield"]
+        an = eng.analyse(s.key)
+        for a in at:
+            # block that defines the sampled value: the innermost call site (`name@bbN`) mentioned by the atom
+            blocks = _call_blocks(a)
+            if not blocks: continue
+            sb = max(blocks)
+            stale = [y for y in yields if y in body.reach_from(sb) and s.b in body.reach_from(y)]
+            locked = bool(stale) and all(an.must_hold(y, lambda r: r[0] == "lock") for y in stale)
+            n += 1
+            ctx.ob("R20.3", f"{s.key}|wake-decision-not-sampled-before-the-suspension", not stale or locked, body.loc(s.b),
+                   "the length deciding the wake-up is sampled after the setter completed" if not stale else
+                   ("the length is sampled before the suspension but the queue lock is held throughout (R20.1 reports that)" if locked else
+                    f"the wake decision uses `{D.show(a)[:80]}`, sampled before the setter's .await: consumers may drain the queue and park while the setter is suspended, and the completed send then wakes nobody"))
+    ctx.floor("R20.3", 5)
+
+
+def _call_blocks(e, out=None):
+    out = out if out is not None else []
+    if isinstance(e, tuple):
+        if e and e[0] == "call" and len(e) > 3 and isinstance(e[3], int): out.append(e[3])
+        if e and e[0] == "atomic" and len(e) > 3 and isinstance(e[3], int): out.append(e[3])
+        for x in e:
+            if isinstance(x, tuple): _call_blocks(x, out)
+    return out
+
+
+_check_r20_1 = check
+def check(ctx):
+    _check_r20_1(ctx)
+    _r20_3(ctx)
